@@ -3294,10 +3294,15 @@ func (r *Resolver) clearAdditional(req, resp *dns.Msg, extra ...bool) *dns.Msg {
 	shouldClearExtra := len(extra) == 0 || !extra[0]
 
 	if shouldClearExtra {
+		// Read the authority's ECS scope before its additional section goes.
+		scoped := scopedRequestOPT(req, resp)
 		resp.Extra = []dns.RR{}
 
 		// Preserve EDNS0 if present
 		if opt := req.IsEdns0(); opt != nil {
+			if scoped != nil {
+				opt = scoped
+			}
 			resp.Extra = append(resp.Extra, opt)
 		}
 	}
@@ -3315,6 +3320,47 @@ func requestSubnet(req *dns.Msg) *dns.EDNS0_SUBNET {
 		if sub, ok := o.(*dns.EDNS0_SUBNET); ok {
 			return sub
 		}
+	}
+	return nil
+}
+
+// scopedRequestOPT returns a private copy of the request OPT whose subnet
+// option carries the SCOPE PREFIX-LENGTH the authority declared in resp, so
+// the cache below files a tailored answer under its scope instead of the
+// shared key. nil when nothing was forwarded, the authority declared no
+// (or a zero) scope, or its option does not echo family, source
+// prefix-length and address of the one sent (RFC 7871 §7.3).
+func scopedRequestOPT(req, resp *dns.Msg) *dns.OPT {
+	sent := requestSubnet(req)
+	if sent == nil {
+		return nil
+	}
+	reqOPT := req.IsEdns0()
+	respOPT := resp.IsEdns0()
+	if respOPT == nil || respOPT == reqOPT {
+		return nil
+	}
+	for _, o := range respOPT.Option {
+		got, ok := o.(*dns.EDNS0_SUBNET)
+		if !ok {
+			continue
+		}
+		if got.SourceScope == 0 || got.Family != sent.Family ||
+			got.SourceNetmask != sent.SourceNetmask || !got.Address.Equal(sent.Address) {
+			return nil
+		}
+		cp := *reqOPT
+		cp.Option = make([]dns.EDNS0, 0, len(reqOPT.Option))
+		for _, ro := range reqOPT.Option {
+			if ro == dns.EDNS0(sent) {
+				echo := *sent
+				echo.SourceScope = got.SourceScope
+				cp.Option = append(cp.Option, &echo)
+				continue
+			}
+			cp.Option = append(cp.Option, ro)
+		}
+		return &cp
 	}
 	return nil
 }
